@@ -19,3 +19,4 @@ open Fzf.Props.C15
 #print axioms C15_shown_input_first_row
 #print axioms C15_header_first
 #print axioms C15_inline_right
+#print axioms C15_info_right
